@@ -3,6 +3,7 @@
 SPECIFICATION Spec
 CONSTANTS
   Modes = {"tcp", "udp", "dec"}
+  LogLevels = {"info"}
   MaxPkts = 2
   ValidateKnown = TRUE
   TcpDests <- BehTcpDests
